@@ -18,6 +18,22 @@ theorem endpoints_eq_documented : endpoints = documented := by decide
 /-- exactly one `client.Do`, not inside a loop, and after the limiter wait -/
 theorem one_get_after_wait : doCalls = 1 ∧ doInLoop = false ∧ limiterWaitBeforeDo = true := by decide
 
+/-- the request as it stands in the source: the limiter is waited on only when one is set, the request is a GET of
+    the given URL carrying the caller's context, and the body is decoded only after every status test has been
+    passed — each status branch returns its error without touching `item`, so no partial data comes back -/
+theorem request_shape :
+    getFromAPIBody = ["client := ds.Client", "if client == nil {", "client = DefaultDatasource.Client", "}",
+      "if client == nil {", "client = http.DefaultClient", "}",
+      "if ds.Limiter != nil {", "err := ds.Limiter.Wait(ctx)", "if err != nil {", "return err", "}", "}",
+      "req, err := http.NewRequest(\"GET\", url, nil)", "if err != nil {", "return err", "}",
+      "resp, err := client.Do(req.WithContext(ctx))", "if err != nil {", "return err", "}", "defer resp.Body.Close()",
+      "if resp.StatusCode == http.StatusNotFound {", "return &NotFoundError{URL: url}", "}",
+      "if resp.StatusCode == http.StatusForbidden {", "return &ForbiddenError{URL: url}", "}",
+      "if resp.StatusCode == http.StatusGone {", "return &GoneError{URL: url}", "}",
+      "if resp.StatusCode == http.StatusRequestURITooLong {", "return &RequestURITooLongError{URL: url}", "}",
+      "if resp.StatusCode != http.StatusOK {", "return &UnexpectedStatusCodeError{ Code: resp.StatusCode, URL: url, }", "}",
+      "return xml.NewDecoder(resp.Body).Decode(item)"] := by decide
+
 /-- **every status other than 200 is an error** -/
 theorem status_total (code : Nat) (h : code ≠ 200) : classify code ≠ "ok" := by
   unfold classify
